@@ -31,6 +31,84 @@ fn nonassertion(rng: &mut Rng, case: u64) -> Envelope {
     }
 }
 
+/// Wide nodes (C04-m11): a node of `width` elided assertions with forged digests — some sharing a long
+/// digest prefix — receives further prefix twins through the builders and goes through the transformations
+/// that re-assemble the assertion list; S1 judges the order after every step.  Widths straddle the sizes
+/// at which a sort might change strategy (insertion-sort cut-offs, powers of two, 4096, 8192).
+fn wide_node(ctx: &mut Ctx, case: u64, rng: &mut Rng, key: &SymmetricKey) {
+    const WIDTHS: [usize; 14] = [3, 19, 21, 33, 63, 129, 255, 513, 1025, 2049, 4095, 4097, 4200, 8200];
+    let width = if ctx.pick(true, false) { WIDTHS[(case / 700) as usize % WIDTHS.len()] } else { *rng.pick(&WIDTHS) };
+    let share = *rng.pick(&[1usize, 2, 4, 7, 8, 9, 15, 16, 24, 31][..]);
+    let forged = |prefix: u64, share: usize, fill: u8| -> [u8; 32] {
+        // the first `share` bytes depend on `prefix` only, the rest on `fill`
+        let mut d = [0u8; 32];
+        let h = crate::rng::fnv(&format!("wide-{}-{}", case, prefix)).to_be_bytes();
+        for i in 0..32 {
+            d[i] = if i < share { h[i % 8] ^ (i / 8) as u8 } else { fill };
+        }
+        d
+    };
+    let mut order: Vec<usize> = (0..width).collect();
+    rng.shuffle(&mut order);
+    let res = trap::guard(|| {
+        let mut outs: Vec<(&'static str, Envelope)> = Vec::new();
+        let mut e = Envelope::new(format!("wide-{}", case));
+        let batch: Vec<Envelope> = order.iter().map(|i| gen::elided_with_digest(&forged(*i as u64, 32, 0))).collect();
+        e = e.add_assertion_envelopes(&batch).expect("elided elements are accepted as assertions");
+        outs.push(("wide_built", e.clone()));
+        // twins of a few members: same leading bytes, smaller or larger after them, in either order of arrival
+        for t in 0..4 {
+            let member = rng.below(width) as u64;
+            let fills: [u8; 3] = if rng.chance(1, 2) { [0x80, 0x10, 0xf0] } else { [0x80, 0xf0, 0x10] };
+            for f in fills {
+                e = e.add_assertion_envelope(gen::elided_with_digest(&forged(member, share, f))).expect("elided twin accepted");
+            }
+            if t == 0 {
+                outs.push(("wide_twin_added", e.clone()));
+            }
+        }
+        outs.push(("wide_twins_added", e.clone()));
+        let asr = e.assertions();
+        outs.push(("wide_remove", e.remove_assertion(rng.pick(&asr).clone())));
+        outs.push(("wide_replace_subject", e.replace_subject(Envelope::new("other"))));
+        outs.push(("wide_add_plain", e.add_assertion("plain", case)));
+        outs.push(("wide_elide_subject", e.elide_removing_target(&e.subject())));
+        if let Ok(x) = e.encrypt_subject(key) {
+            if let Ok(y) = x.decrypt_subject(key) {
+                outs.push(("wide_decrypt_subject", y));
+            }
+            outs.push(("wide_encrypt_subject", x));
+        }
+        if let Ok(x) = e.compress_subject() {
+            if let Ok(y) = x.uncompress_subject() {
+                outs.push(("wide_uncompress_subject", y));
+            }
+        }
+        if let Ok(x) = Envelope::try_from_cbor_data(env_bytes(&e)) {
+            outs.push(("wide_decoded", x));
+        }
+        if let Ok(x) = e.compress().and_then(|c| c.uncompress()) {
+            outs.push(("wide_uncompressed", x));
+        }
+        outs
+    });
+    let rp = J::obj(vec![("wide_width", J::i(width as u64)), ("shared_prefix_bytes", J::i(share as u64))]);
+    match res {
+        Err(p) => ctx.violation(&format!("panic/wide_node/{}", p.signature()), &format!("{:?}", p), rp),
+        Ok(outs) => {
+            ctx.count(&format!("wide_width_{}", width));
+            ctx.count(&format!("wide_shared_prefix_{}", share));
+            for (op, x) in outs {
+                ctx.eval();
+                ctx.count(&format!("op_{}", op));
+                if check_spec(ctx, &x, &format!("after {} (width {}, {} shared bytes)", op, width, share)).is_none() {
+                    ctx.violation(&format!("malformed-after/{}", op), "see s1/* violation of the same case", rp.clone());
+                }
+            }
+        }
+    }
+}
+
 pub const OPS: [&str; 39] = [
     "replace_subject_by_own_placeholder", "decode_mutant", "uncompress_forged", "adopt_foreign_encrypted",
     "attachments_container_reapply", "attachments_container_extend", "add_nonassertion_envelope", "add_nonassertion_salted", "add_nonassertion_optional", "add_nonassertion_batch", "replace_with_nonassertion", "add_nonassertion_if", "add", "add_duplicate", "add_salted", "add_envelope_obscured", "remove_existing", "remove_absent", "remove_all", "replace_assertion", "replace_subject_leaf",
@@ -41,6 +119,7 @@ pub const OPS: [&str; 39] = [
 pub fn run(ctx: &mut Ctx) {
     let total = ctx.n(80_000, 4_000_000);
     let max_len = ctx.pick(12usize, 40usize);
+    let wide_every = ctx.pick(700u64, 2_000u64);
     let (sk, _pk) = SignatureScheme::Ed25519.keypair();
     let (_rsk, rpk) = EncapsulationScheme::X25519.keypair();
     for case in ctx.cases(total) {
@@ -48,6 +127,9 @@ pub fn run(ctx: &mut Ctx) {
         let mut rng = ctx.rng(case);
         let (_m, start) = universe(&mut rng, GenCfg::small(), case);
         let key: SymmetricKey = fresh_key(&mut rng);
+        if case % wide_every == 3 {
+            wide_node(ctx, case, &mut rng, &key);
+        }
         let mut cur = start.clone();
         let len = rng.range(3, max_len);
         let mut hist: Vec<String> = Vec::new();
